@@ -2,7 +2,7 @@
 Oracle: RefAST + WatchedGlobals history; explicit monitors for host-binding identity and shadowed-global reads."""
 import random
 
-from .. import exec_prog, gen_prog, refval
+from .. import exec_prog, gen_prog, layout, refval
 from ..refast import pp
 from .c01 import _contracts, _drain, _lib
 
@@ -28,9 +28,12 @@ def meta(tier):
     }
 
 
-def run_case(prog, init, stubs, acc, con, lib):
+def run_case(prog, init, stubs, acc, con, lib, respell=None):
     text = '\n'.join(pp(prog))
-    case = {'prog': prog, 'init': refval.enc(init), 'stubs': sorted(stubs)}
+    if respell is not None:
+        # the same program in another layout (blanks, `async function` headers - an async function is called like any other)
+        text = layout.respell(text, random.Random(respell), 0.35)
+    case = {'prog': prog, 'init': refval.enc(init), 'stubs': sorted(stubs), 'respell': respell}
     extra = {n: gen_prog.make_stub(n) for n in stubs if not n.endswith('=null')}
     # a caller may also bind a library name to null (e.g. to disable it): the library never puts its function back
     extra.update({n[:-5]: None for n in stubs if n.endswith('=null')})
@@ -157,7 +160,7 @@ def run_history(spec, acc):
     dictionary is never written; a later run with fresh globals sees exactly the library plus its own assignments."""
     import bare_script
     from bare_script.library import EXPRESSION_FUNCTIONS, SCRIPT_FUNCTIONS
-    from bare_script.runtime import evaluate_expression
+    from bare_script.runtime import BareScriptRuntimeError, evaluate_expression
     snap_lib = dict(SCRIPT_FUNCTIONS)
     snap_expr = dict(EXPRESSION_FUNCTIONS)
     models = [bare_script.parse_script(t) for t in HISTORY_SCRIPTS]
@@ -242,6 +245,43 @@ def run_history(spec, acc):
             if res != ['script arrayLength', 'helper 1', 'not a function', 3] or any(g[n] is not v for n, v in kept.items()):
                 acc.violation('library-overwrote-supplied-name', f'second run on the same globals: {res!r}; bindings kept: { {n: g[n] is v for n, v in kept.items()} }', {'history': 'same-globals-next-run'})
                 return
+        # a script that binds names to NULL with systemGlobalSet (a library function, an expression built-in, a host function, a function of
+        # its own): null is a value - the names stay bound (to null) for the rest of the run, for the next run on the same globals and
+        # for expression evaluation; nothing puts the library function back
+        g = {'hostFn': lambda a, opts: 'host'}
+        first = bare_script.execute_script(bare_script.parse_script(
+            "function mine():\n    return 1\nendfunction\nsystemGlobalSet('mathSign', null)\nsystemGlobalSet('round', null)\nsystemGlobalSet('hostFn', null)\nsystemGlobalSet('mine', null)\nsystemGlobalSet('fresh', null)\n"
+            "return arrayNew(mathSign, hostFn, mine, fresh, systemGlobalGet('mathSign', 'default'))"), {'globals': g})
+        acc.case(('null-set-names', h), True)
+        acc.count('null_set_name_checks')
+        bound = {n: (n in g, g.get(n)) for n in ('mathSign', 'round', 'hostFn', 'mine', 'fresh')}
+        if first != [None, None, None, None, None] and first != [None, None, None, None, 'default']:
+            acc.violation('null-binding-not-kept', f'first run returned {first!r}', {'history': 'null-set-names'})
+            return
+        if any(b != (True, None) for b in bound.values()):
+            acc.violation('null-binding-not-kept', f'after systemGlobalSet(name, null) the globals hold {bound!r} (expected every name present and bound to null)', {'history': 'null-set-names'})
+            return
+        for probe in ("return mathSign(0 - 3)", "return mine()", "return hostFn()"):
+            try:
+                res = bare_script.execute_script(bare_script.parse_script(probe), {'globals': g})
+                acc.violation('null-binding-not-kept', f'next run on the same globals: {probe!r} returned {res!r} (the name is bound to null: an undefined-function error is due)', {'history': 'null-set-names', 'probe': probe})
+                return
+            except BareScriptRuntimeError:
+                pass
+        for expr_text, call in (('round(2.5)', {'function': {'name': 'round', 'args': [{'number': 2.5}]}}),):
+            try:
+                res = evaluate_expression(call, {'globals': g}, None, True)
+                acc.violation('builtin-wins-over-null-binding', f'{expr_text} with round bound to null by systemGlobalSet gave {res!r}', {'history': 'null-set-names'})
+                return
+            except BareScriptRuntimeError:
+                pass
+        try:
+            got = bare_script.execute_script(bare_script.parse_script("dd = arrayNew(objectNew('a', 2.5))\nreturn dataCalculatedField(dd, 'r', 'round(a)')"), {'globals': g, 'logFn': None})
+            if got != [{'a': 2.5, 'r': None}] and got is not None:
+                acc.violation('builtin-wins-over-null-binding', f'data expression round(a) with round bound to null by systemGlobalSet: {got!r}', {'history': 'null-set-names'})
+                return
+        except BareScriptRuntimeError:
+            pass
         # ONE options object, a different globals object for every run (fresh dict, dict with a host override, none at all):
         # each run gets the library added to ITS globals
         o = {'maxStatements': 1000}
@@ -264,7 +304,6 @@ def run_history(spec, acc):
         # one options object reused after a run that FAILED inside a data function called with a variables object (runtime error in
         # the row expression, budget exceeded in a callback): the caller's globals object is still the one in the options, the
         # variables are gone, and the next run writes its assignments there
-        from bare_script.runtime import BareScriptRuntimeError
         for failing in ("dd = arrayNew(objectNew('a', 1))\nrr = dataFilter(dd, 'nosuch(a) + vv', objectNew('vv', 7))",
                         "dd = arrayNew(objectNew('a', 1))\nrr = dataCalculatedField(dd, 'cc', 'nosuch(vv)', objectNew('vv', 7))",
                         "function spin(x):\n    while true:\n        x = x + 1\n    endwhile\nendfunction\ndd = arrayNew(objectNew('a', 1))\nrr = dataJoin(dd, dd, 'spin(a) + vv', null, false, objectNew('vv', 7))"):
@@ -375,7 +414,7 @@ def run_shard(spec, acc):
     for i in range(spec['n']):
         rnd = random.Random(base + i)
         prog, init, stubs, gen = make_case(rnd)
-        run_case(prog, init, stubs, acc, con, lib)
+        run_case(prog, init, stubs, acc, con, lib, respell=(base + i) if i % 4 == 2 else None)
         for _, params, lastarr in gen.sigs:
             acc.cover('signatures', f'{len(params)}{"+rest" if lastarr else ""}')
     if con.evals.get('parse_script_post', 0) == 0:
@@ -391,4 +430,4 @@ def replay(spec, acc):
     if 'prog' not in case:
         acc.note_inconclusive('finding-level replay entry')
         return
-    run_case(case['prog'], refval.dec(case['init']), case.get('stubs', []), acc, _contracts(), _lib())
+    run_case(case['prog'], refval.dec(case['init']), case.get('stubs', []), acc, _contracts(), _lib(), respell=case.get('respell'))
